@@ -397,7 +397,9 @@ where
     fn from(field: T) -> Self {
         let mut value: Value = field.into();
         let must_understand = if let Some(object) = value.as_object_mut() {
-            if let Some(Value::Bool(must_understand)) = object.remove("must_understand") {
+            // `shift_remove` keeps the order of the other keys (`remove` swaps the last key into the gap,
+            // so the order of the serialised keys changed on every read)
+            if let Some(Value::Bool(must_understand)) = object.shift_remove("must_understand") {
                 must_understand
             } else {
                 true
